@@ -33,6 +33,9 @@ Expr == <<"x", "and", "or", "not", "in", "contains", "if", "else", "with", "for"
 \* expression text for the serialisation round trip (C12): what str() must put back - brackets around names that are
 \* not identifiers, quotes of both kinds, grouping, the comma of a one-item array, interpolation
 ExprRT == <<"x", "y", " ", "or", "not", "true", "1", ".", "[", "]", "(", ")", "'", "\"", "${", "}", "|", ",", "==", "a b", "\\", "first">>
+\* text for strip_html; numbers beyond what CPython converts between int and str unasked (@DIGITS@ is 5000 nines)
+Html == <<"<", ">", "!", "[", "]", "-", "/", "a", "script", "&", ";", "#", " ", "=", "\"", "?">>
+ExprBig == <<"x", "n", "1", "@DIGITS@", ".", "[", "]", "(", ")", "..", "-", "e", " | plus: ", " | times: ", " contains ", " == ", " ">>
 MarkupSmall == <<"{{", "}}", "{%", "%}", "{#", "#}", "-", "raw", "endraw", "if x", "endif", "ab", " ", "\n", "'", "x">>
 ExprSmall == <<"x", "and", "not", "contains", "if", "else", "1", ".", "..", "[", "]", "(", ")", "'", "\"",
                "${", "}", "|", ":", ",", "==", "-", "e999", " ">>
